@@ -210,6 +210,8 @@ impl AppendLocation {
                 token.insert_leading_trivia(1, TriviaKind::Whitespace.with_content("\n"));
             }
             AppendLocation::End => {
+                // start on a new line: the file may end with a single line comment
+                token.push_trailing_trivia(TriviaKind::Whitespace.with_content("\n"));
                 token.push_trailing_trivia(TriviaKind::Comment.with_content(comment));
             }
         }
